@@ -219,7 +219,7 @@ def _ob(n, fixed=()):
         "pres": pres,
         "call": "H.names_prop(steps, root_mode, root_own, in_if)",
         "timeout": 300, "timeout_thorough": 1200,
-        "tiers": ("quick", "thorough") if n <= 3 else ("thorough",),
+        "tiers": ("quick", "thorough") if n <= 4 else ("thorough",),
         "functions": ["onnxscript.nn._module_list:ModuleList._register_child", "onnxscript.nn._module_list:ModuleList._set_name",
                       "onnxscript.nn._sequential:Sequential._register_child", "onnxscript.nn._sequential:Sequential._set_name",
                       "onnxscript.nn._module:Module.__setattr__", "onnxscript.nn._module:Module.__call__",
